@@ -509,7 +509,7 @@ pub static C14: PropDef = PropDef {
         "the OS-acceptance table (1..=64 minus 32, 33, KILL, STOP) is glibc/Linux specific and written independently of the library",
         "real signals are raised only for signals the case itself registered (taken over) - anything else would kill the child by design",
     ],
-    cases: (600, 8000),
+    cases: (600, 40_000),
     shrink_iters: 200,
     worker,
     replay,
